@@ -318,7 +318,8 @@ class Materialised:
             self._declare_one(spec, spec["name"], spec["flavour"], spec["fields"][n_inh:], spec["fields"][:n_inh], bexpr, spec["mod"])
         else:
             self._declare_one(spec, spec["name"], spec["flavour"], spec["fields"], (), None, spec["mod"])
-        self.classes[(spec["mod"], spec["name"])] = self.modules[spec["mod"]].__dict__[spec["name"]]
+        ns = self.modules[spec["mod"]].__dict__
+        self.classes[(spec["mod"], spec["name"])] = getattr(ns[spec["name"] + "_Ns"], spec["name"]) if spec.get("nest") else ns[spec["name"]]
 
     def _declare_one(self, spec, name, fl, fields, inherited, base, mod):
         future = bool(spec.get("future"))
@@ -394,6 +395,8 @@ class Materialised:
             lines.append("    __hash__ = None")
         else:
             raise ValueError(fl)
+        if spec.get("nest") and name == spec["name"]:
+            lines = [f"class {name}_Ns:"] + ["    " + ln for ln in lines]
         self._exec(mod, "\n".join(lines) + "\n", future=future)
 
     # -- annotation expression --------------------------------------------------------------
@@ -402,7 +405,11 @@ class Materialised:
         k = spec["k"]
 
         def named(s):
-            return s["name"] if at_mod == s["mod"] else f"M{s['mod']}.{s['name']}"
+            n = s["name"]
+            target = s if s["k"] == "class" else self.class_specs.get((s["mod"], s["name"]), s)
+            if target.get("k") == "class" and target.get("nest"):
+                n = f"{n}_Ns.{n}"      # a class declared in the body of another class
+            return n if at_mod == s["mod"] else f"M{s['mod']}.{n}"
 
         E = lambda s: self.expr(s, at_mod, quote_refs)  # noqa: E731
         if k == "scalar":
@@ -1263,6 +1270,8 @@ def class_specs(draw, names, *, max_depth, hashable, open_classes, kw):
     spec = {"k": "class", "name": name, "mod": mod, "flavour": fl, "future": future, "fields": fields}
     if fl == "dataclass" and draw(st.integers(0, 5)) == 0:
         spec["classvars"] = ["cv"]
+    if draw(st.integers(0, 5)) == 0:
+        spec["nest"] = True     # declared in the body of another class: referred to as `<name>_Ns.<name>`, qualified name with a dot
     if fl != "namedtuple" and fields and draw(st.integers(0, 3)) == 0:
         # a class hierarchy: the first n fields are declared by a base class of the same flavour (a slotted class then only
         # names its own fields in __slots__, a TypedDict may sit on a base of the other totality)
